@@ -40,36 +40,44 @@ VF_HARNESS(copy_assign_k1) { t_copy_assign<1>(); vf_reach("copy_assign_k1"); }
 VF_HARNESS(copy_assign_k0) { t_copy_assign<0>(); vf_reach("copy_assign_k0"); }
 VF_HARNESS(copy_assign_k5) { t_copy_assign<5>(); vf_reach("copy_assign_k5"); }
 
-VF_HARNESS(ctor_extents_value) {   // a failed constructor leaves nothing behind
+template<bool KF> static void t_ctor_extents_value() {   // a failed constructor leaves nothing behind
   L n[D]; draw_extents<D>(n, 1, NB); SLOT(0);
   arm(); L const g_fail_at_saved = g_fail_at;
+  vf_assume(KF == (g_fail_at >= 2));   // known finding C09-ctor-leak: an element construction (ops >= 2; op 1 is the allocation) throws inside a constructor
   TRY(Arr a(exts<D>(n), T(4)); (void)a);
   check_all_released();
-  vf_reach("ctor_extents_value");
 }
-VF_HARNESS(ctor_extents) {
+VF_HARNESS(ctor_extents_value) { t_ctor_extents_value<false>(); vf_reach("ctor_extents_value"); }
+VF_HARNESS(ctor_extents_value_kf) { t_ctor_extents_value<true>(); vf_reach("ctor_extents_value_kf"); }
+template<bool KF> static void t_ctor_extents() {
   L n[D]; draw_extents<D>(n, 1, NB); SLOT(0);
   arm(); L const g_fail_at_saved = g_fail_at;
+  vf_assume(KF == (g_fail_at >= 2));   // known finding C09-ctor-leak: an element construction (ops >= 2; op 1 is the allocation) throws inside a constructor
   TRY(Arr a(exts<D>(n)); (void)a);
   check_all_released();
-  vf_reach("ctor_extents");
 }
-VF_HARNESS(ctor_copy) {
+VF_HARNESS(ctor_extents) { t_ctor_extents<false>(); vf_reach("ctor_extents"); }
+VF_HARNESS(ctor_extents_kf) { t_ctor_extents<true>(); vf_reach("ctor_extents_kf"); }
+template<bool KF> static void t_ctor_copy() {
   Slot a; make_state<1>(a, 10, 0); SLOT(2);
   arm(); L const g_fail_at_saved = g_fail_at;
+  vf_assume(KF == (g_fail_at >= 2));   // known finding C09-ctor-leak
   TRY(Arr c(*a); (void)c);
   check_value(*a, a.n, 10, "source unchanged");
   a.destroy(); check_all_released();
-  vf_reach("ctor_copy");
 }
-VF_HARNESS(ctor_from_view) {
+VF_HARNESS(ctor_copy) { t_ctor_copy<false>(); vf_reach("ctor_copy"); }
+VF_HARNESS(ctor_copy_kf) { t_ctor_copy<true>(); vf_reach("ctor_copy_kf"); }
+template<bool KF> static void t_ctor_from_view() {
   Slot a; make_state<1>(a, 10, 0); SLOT(2);
   arm(); L const g_fail_at_saved = g_fail_at;
+  vf_assume(KF == (g_fail_at >= 2));   // known finding C09-ctor-leak
   TRY(Arr c((*a)()); (void)c);
   check_value(*a, a.n, 10, "source unchanged");
   a.destroy(); check_all_released();
-  vf_reach("ctor_from_view");
 }
+VF_HARNESS(ctor_from_view) { t_ctor_from_view<false>(); vf_reach("ctor_from_view"); }
+VF_HARNESS(ctor_from_view_kf) { t_ctor_from_view<true>(); vf_reach("ctor_from_view_kf"); }
 VF_HARNESS(move_and_swap_do_not_allocate_or_throw) {
   Slot a; make_state<1>(a, 10, 0); Slot b; make_state<1>(b, 40, 2); SLOT(4);
   arm(); L const g_fail_at_saved = g_fail_at; long const allocs = g_nalloc; long const ops = g_ops;
@@ -82,16 +90,21 @@ VF_HARNESS(move_and_swap_do_not_allocate_or_throw) {
   b.destroy(); a.destroy(); check_all_released();
   vf_reach("move_and_swap_do_not_allocate_or_throw");
 }
-VF_HARNESS(assign_from_view) {   // array = view of another array (different extents: reallocation; same extents: in place)
+template<bool KF> static void t_assign_from_view() {   // array = view of another array (different extents: reallocation; same extents: in place)
   Slot a; make_state<1>(a, 10, 0); Slot b; make_state<1>(b, 40, 2); SLOT(4);
   arm(); L const g_fail_at_saved = g_fail_at;
+  { bool same = true;
+#pragma unroll
+    for(int k = 0; k < D; ++k) same = same && a.n[k] == b.n[k];
+    vf_assume(KF == (!same && g_fail_at >= 2)); }   // known finding C09-ctor-leak: different extents go through array(view), whose element copies may throw
   TRY(*b = (*a)());
   if(!threw) check_value(*b, a.n, 10, "assigned");
   check_value(*a, a.n, 10, "source unchanged");
   check_survivor(*b, 6);
   b.destroy(); a.destroy(); check_all_released();
-  vf_reach("assign_from_view");
 }
+VF_HARNESS(assign_from_view) { t_assign_from_view<false>(); vf_reach("assign_from_view"); }
+VF_HARNESS(assign_from_view_kf) { t_assign_from_view<true>(); vf_reach("assign_from_view_kf"); }
 VF_HARNESS(view_assign_does_not_allocate) {   // assignment through views: element exceptions propagate, nothing allocated, arrays stay valid
   Slot a; make_state<1>(a, 10, 0); Slot b; make_state<1>(b, 40, 2); SLOT(4);
   bool same = true;
@@ -118,12 +131,3 @@ template<int FORM> static void t_reextent() {
 VF_HARNESS(reextent) { t_reextent<0>(); vf_reach("reextent"); }
 VF_HARNESS(reextent_fill) { t_reextent<1>(); vf_reach("reextent_fill"); }
 VF_HARNESS(reextent_rvalue) { t_reextent<2>(); vf_reach("reextent_rvalue"); }
-VF_HARNESS(assign_extents_value) {
-  Slot a; make_state<1>(a, 10, 0); SLOT(2);
-  L m[D]; draw_extents<D>(m, 0, NB);
-  arm(); L const g_fail_at_saved = g_fail_at;
-  TRY((*a).assign(exts<D>(m), T(55)));
-  check_survivor(*a, 5);
-  a.destroy(); check_all_released();
-  vf_reach("assign_extents_value");
-}
